@@ -150,8 +150,12 @@ func descrIdx(d iblobstorage.DescrType) uint64 {
 func planReads(r *kit.Rng, size int, chunking string) []int {
 	var out []int
 	rem := size
+	// "odd": one fixed portion size that does not tile a bucket (network-like short reads)
+	odd := kit.Pick(r, []int{70000, chunkSize - 1, chunkSize/3 + 1, 99999})
 	next := func() int {
 		switch chunking {
+		case "odd":
+			return odd
 		case "one":
 			return 1
 		case "full":
